@@ -1,4 +1,6 @@
 import GrolProofs.EvalSafeEnv
+import GrolProofs.MemoFootprint
+import GrolProofs.MemoKey
 /-
 C04 — automatic memoization is unobservable.
 
@@ -10,6 +12,32 @@ names: with the switch off nothing is looked up or stored; a lookup returns exac
 stored for an equal key (`set_get`); a hit replays the stored output and returns the stored result
 without touching anything else (`replay`); an entry is stored only when the callee frame's miss
 counter did not move and the result is not an error (`store_condition`).
+
+The footprint lemma (A) is proved (`GrolProofs/MemoMono.lean`, `MemoFootprint.lean`, restated at the
+end of this file): miss counters never decrease (`C04.miss_monotone`), so "after = before" is
+inherited by every step of the call (`C04.quiet_inherited`, with `During` = "is a step of");
+for the individual steps it means: no completed `del` / `TriggerNoCache` on the frame
+(`C04.no_del_in_quiet_call`), every `makeRef` reached only a function-valued binding or an
+all-caps name of a depth-0 frame (`C04.quiet_makeRef`), every nested call was a hit, failed to bind
+its arguments, or was itself miss-free on its own frame (`C04.purity_footprint`).
+
+every `Get` returned nothing, the frame's own function, a value of the frame's own store or a
+reference to a trusted binding (`C04.quiet_get`); no function-valued binding was overwritten or
+deleted (`C04.no_function_write_in_quiet_call`).
+
+The last clause is the repair of a defect the proof of (A) exposed: a miss-free `makeRef` hands out a
+reference to any function-valued outer binding, and `setNoChecks`/`update` used to write through it
+without a miss, so `g=func(){1}; f=func(x){g=func(){2}; x}; f(1); g=func(){3}; f(1); g()` gave 3
+with the cache and 2 without (known_findings.json, class
+`cached-call-skips-write-to-function-valued-outer-binding`, fixed by grol 0f2eeb4: `functionChanged`
+counts a miss on the writing environment and empties the cache).
+
+NOT proved: (B) determinism of miss-free calls and (C) the session-level equivalence.  Both are
+relational statements about two runs whose heaps of frames differ (a hit allocates no frame, so
+frame indices in closures and references diverge): they need a simulation relation up to a
+renaming of frame indices through all 19 mutually recursive functions.  A `Safe` fragment for (C)
+has to exclude the recorded classes (closure results, float keys), `deadlineAfter`, and runs that
+stop on fuel or the depth guard (a hit shortens the recursion).
 -/
 namespace Grol.E
 
@@ -176,5 +204,93 @@ example : outcome (cacheGet "k" [.int 1, .str [97]])
     (stateAfter (cacheSet "k" [.int 1, .str [97]] (.int 2) [104, 105]) (initState {})) = .ok (some (.int 2, [104, 105])) :=
   C04.set_get "k" [.int 1, .str [97]] [.int 1, .str [97]] (.int 2) [104, 105] (initState {}) rfl (by decide) rfl (by decide) rfl
     (by decide)
+
+/-! ### (A) the footprint of a call that is stored -/
+
+/-- miss counters only grow and frames are only added, through any evaluation, whatever its outcome -/
+theorem C04.miss_monotone (fuel : Nat) (node : Node) (st : St) : Grows st (stateAfter (eval fuel node) st) :=
+  eval_grows fuel node st
+
+/-- "after = before" on frame `e` is inherited by every step of the computation -/
+theorem C04.quiet_inherited {α β : Type} {x : M α} {st : St} {y : M β} {s : St} {e : Nat}
+    (hd : During x st y s) (hq : Quiet e x st) : Quiet e y s := quiet_during hd hq
+
+/-- a computation that is miss-free on the current frame completed no `del` -/
+theorem C04.no_del_in_quiet_call {α : Type} {x : M α} {st s : St} {fuel : Nat} {node : Node}
+    (hd : During x st (evalDelete (fuel + 1) node) s) (hq : Quiet s.cur x st) (r : Obj) :
+    outcome (evalDelete (fuel + 1) node) s ≠ .ok r := no_del_during hd hq r
+
+/-- a miss-free `makeRef` found nothing or handed out a reference to a trusted binding: a function
+value, or an all-caps name in a depth-0 frame -/
+theorem C04.quiet_makeRef (orig : Nat) (name : String) (st : St) (r : Option Obj)
+    (hok : outcome (makeRef orig name) st = .ok r) (hq : Quiet orig (makeRef orig name) st) :
+    r = none ∨ ∃ re rn, r = some (.ref re rn) ∧ Trusted st name re rn :=
+  makeRef_go_quiet orig name st.frames.size orig st r hok hq
+
+/-- a miss-free `Get` returned nothing, the frame's own function, a value bound in the frame's own
+store, or a reference to a trusted binding -/
+theorem C04.quiet_get (e : Nat) (name : String) (st : St) (r : Option Obj)
+    (hok : outcome (envGet e name) st = .ok r) (hq : Quiet e (envGet e name) st) : PureRead st e name r :=
+  envGet_quiet e name st r hok hq
+
+/-- no step of a computation that is miss-free on frame `w` overwrites or deletes a binding holding a
+function on behalf of `w`: every overwrite/deletion of an existing binding (`update`, the reference
+path of `SetNoChecks`, `Delete`) reports the old value to `functionChanged w`, and a completed
+`functionChanged w (some f)` with `f` a function raises `w`'s counter -/
+theorem C04.no_function_write_in_quiet_call {α : Type} {x : M α} {st s : St} {w : Nat} {o : Obj}
+    (hd : During x st (functionChanged w (some o)) s) (hq : Quiet w x st) (ho : isFuncObj o = true) :
+    outcome (functionChanged w (some o)) s ≠ .ok () := no_function_change_during hd hq ho
+
+/-- the same, for the store step of an assignment whose target binding holds a function -/
+theorem C04.no_function_assignment_in_quiet_call {α : Type} {x : M α} {st s : St} {w e : Nat} {name : String}
+    {val : Obj} {fr : Frame} {o : Obj} (hd : During x st (envStoreAt w e name val) s) (hq : Quiet w x st)
+    (hfr : s.frames[e]? = some fr) (hl : lookupStore fr.store name = some o) (ho : isFuncObj o = true) (r : Obj) :
+    outcome (envStoreAt w e name val) s ≠ .ok r := no_function_write_during hd hq hfr hl ho r
+
+/-- the footprint lemma for calls: a call that completes without moving its caller's miss counter
+(in particular every nested call of a call that is stored) was a cache hit, failed while binding its
+arguments, or evaluated its body without moving its own frame's miss counter -/
+theorem C04.purity_footprint (fuel : Nat) (f : FuncVal) (args : List Obj) (st : St) (v : Obj)
+    (hok : outcome (applyFunction (fuel + 1) (.func f) args) st = .ok v)
+    (hq : Quiet st.cur (applyFunction (fuel + 1) (.func f) args) st) :
+    (∃ out, outcome (cacheGet f.key args) st = .ok (some (v, out))) ∨
+    (outcome (extendFunctionEnv f args) st = .ok (.error v)) ∨
+    (∃ nenv, outcome (extendFunctionEnv f args) st = .ok (.ok nenv) ∧
+      outcome (eval fuel f.body) (bodyState (stateAfter (extendFunctionEnv f args) st) nenv) = .ok v ∧
+      Quiet nenv (eval fuel f.body) (bodyState (stateAfter (extendFunctionEnv f args) st) nenv)) :=
+  applyFunction_quiet fuel f args st v hok hq
+
+/-- an ingredient of (B): the key test of a lookup (`keyEqList`, Go map-key equality) is identity on
+hashable argument lists without floats — floats are the only hashable values on which a hit can
+serve a call with DIFFERENT arguments (`0.0` / `-0.0`, the recorded float-key class) -/
+theorem C04.key_identity (cfg : Cfg) (args args' : List Obj) (hn : noFloatList args = true)
+    (ha : hashableList cfg args = true) (hb : hashableList cfg args' = true)
+    (h : keyEqList args args' = true) : args = args' := keyEqList_eq cfg args args' hn ha hb h
+
+/-! ### non-vacuity: a memoized recursive function -/
+
+def fibBody : Node :=
+  .stmts [ .ifE (.inf "LTEQ" (.ident "n") (.int 1)) (.stmts [.ret (.ident "n")]) .none,
+           .inf "PLUS" (.call (.ident "fib") [.inf "MINUS" (.ident "n") (.int 1)])
+                       (.call (.ident "fib") [.inf "MINUS" (.ident "n") (.int 2)]) ]
+def fibKey : String := "func fib(n){if n<=1{return n}fib(n-1)+fib(n-2)}"
+/-- `func fib(n){ if n<=1 {return n}; fib(n-1)+fib(n-2) }` -/
+def fibDef : Node := .fn (some "fib") ["n"] false false fibKey fibBody
+def fibVal : FuncVal := ⟨some "fib", ["n"], false, false, fibKey, fibBody, 0⟩
+/-- the state after the definition -/
+def fibState : St := stateAfter (eval 10 fibDef) (initState {})
+
+/-- `fib(6)` from the state after the definition: returns 8, does not move the caller's (root)
+counter — the hypotheses of `C04.purity_footprint` — allocates 7 frames for 7 distinct arguments
+(25 calls without the cache) and leaves 7 cache entries: every level was stored -/
+example : (match run (applyFunction 100 (.func fibVal) [.int 6]) fibState with
+    | (.ok (.int v), s) => v == 8 && s.cache.length == 7 && s.frames.size == 8 &&
+        missOf s fibState.cur == missOf fibState fibState.cur
+    | _ => false) = true := by decide +kernel
+
+/-- the same call with the cache off: 25 frames, same value -/
+example : (match run (applyFunction 100 (.func fibVal) [.int 6]) { fibState with cfg := { cacheOn := false } } with
+    | (.ok (.int v), s) => v == 8 && s.cache.length == 0 && s.frames.size == 26
+    | _ => false) = true := by decide +kernel
 
 end Grol.E
